@@ -24,22 +24,40 @@ MANIFEST = {
 }
 
 
-def op_job(name, entry, td, te, fam, unwind, timeout, extra=None, prop="ASSERT_C02", weight=1, mem=10, obits=12):
+def op_job(name, entry, td, te, fam, timeout, extra=None, prop="ASSERT_C02", weight=1, mem=12, harness="pfx_ops.c", what=None):
+    nodes = (1 << (td + 1)) - 1
+    us = {"trie_insert": td + 3, "trie_remove": td + 3, "pfx_table_remove_id": td + 3, "pfx_table_for_each_rec": td + 3,
+          "pfx_table_del_elem.0": te + 2, "pfx_table_find_elem.0": te + 3, "pfx_table_elem_matches.0": te + 3,
+          # src_remove: inner while / for over <= te(+1) records, outer while <= nodes in the subtree + 1
+          "pfx_table_remove_id.0": te + 2, "pfx_table_remove_id.1": te + 2, "pfx_table_remove_id.2": nodes + 2,
+          "pfx_table_free.0": te + 2, "pfx_table_free.1": nodes + 3, "pfx_table_free.2": 3,
+          "trie_lookup_exact.0": td + 4, "trie_lookup.0": td + 4}
     return core.Job(
-        name=name, harness="pfx_ops.c", entry=entry,
+        name=name, harness=harness, entry=entry,
         defines=["TD=%d" % td, "TE=%d" % te, "FAM=%d" % fam, prop] + (extra or []),
-        unwind=unwind, unwindset={'trie_insert': td + 3, 'trie_remove': td + 3, 'pfx_table_remove_id': td + 3, 'pfx_table_for_each_rec': td + 3}, timeout=timeout, mem_gb=mem, sources=TRIE_SOURCES, weight=weight, object_bits=obits,
-        desc="%s on an arbitrary Inv-valid IPv%d trie of template(depth %d, <=%d records/node) + arbitrary 0/1-node "
-             "trie of the other family; record, witness and source symbolic" % (entry, fam, td, te),
+        unwind=max(9, (1 << (td + 2)) + 1), unwindset=us, timeout=timeout, mem_gb=mem, sources=TRIE_SOURCES, weight=weight,
+        object_bits=12,
+        desc=what or ("%s on an arbitrary Inv-valid IPv%d trie of template(depth %d, <=%d records/node) + arbitrary 0/1-node "
+             "trie of the other family; record, witness and source symbolic" % (entry, fam, td, te)),
         bounds={"template_depth": td, "records_per_node": te, "family": fam, "prefix_bits": 32 if fam == 4 else 128,
                 "sources": 2}, stubs=TRIE_STUBS)
 
 
 def jobs(tier, prop="ASSERT_C02"):
     J = []
-    J.append(op_job("add_v4_d1", "harness_add", 1, 2, 4, 8, 900, prop=prop))
-    J.append(op_job("remove_v4_d1", "harness_remove", 1, 2, 4, 8, 900, prop=prop))
-    J.append(op_job("foreach_v4_d1", "harness_for_each", 1, 2, 4, 8, 900, prop=prop))
-    J.append(op_job("srcremove_v4_d1e1", "harness_src_remove", 1, 1, 4, 8, 900, prop=prop))
-    J.append(op_job("srcremove_v4_d0e2", "harness_src_remove", 0, 2, 4, 8, 900, prop=prop))
+    J.append(op_job("add_v4_d1", "harness_add", 1, 2, 4, 900, prop=prop))
+    J.append(op_job("remove_v4_d1", "harness_remove", 1, 2, 4, 900, prop=prop))
+    J.append(op_job("foreach_v4_d1", "harness_for_each", 1, 2, 4, 900, prop=prop))
+    J.append(op_job("srcremove_v4_d0e2", "harness_src_remove", 0, 2, 4, 900, prop=prop))
+    J.append(op_job("srcremove_v4_d1e1", "harness_src_remove", 1, 1, 4, 1500, prop=prop, weight=2))
+    J.append(op_job("add_v6_d1", "harness_add", 1, 1, 6, 1500, prop=prop))
+    J.append(op_job("remove_v6_d1", "harness_remove", 1, 1, 6, 1500, prop=prop))
+    if tier == "thorough":
+        J.append(op_job("add_v4_d2", "harness_add", 2, 2, 4, 3600, prop=prop, weight=3, mem=24))
+        J.append(op_job("remove_v4_d2", "harness_remove", 2, 1, 4, 3600, prop=prop, weight=3, mem=24))
+        J.append(op_job("foreach_v4_d2", "harness_for_each", 2, 2, 4, 3600, prop=prop, weight=2, mem=24))
+        J.append(op_job("srcremove_v4_d1e2", "harness_src_remove", 1, 2, 4, 3600, prop=prop, weight=3, mem=24))
+        J.append(op_job("add_v6_d1e2", "harness_add", 1, 2, 6, 3600, prop=prop, weight=2, mem=24))
+        J.append(op_job("remove_v6_d1e2", "harness_remove", 1, 2, 6, 3600, prop=prop, weight=2, mem=24))
+        J.append(op_job("srcremove_v6_d0e2", "harness_src_remove", 0, 2, 6, 3600, prop=prop, weight=2, mem=24))
     return J
